@@ -116,10 +116,21 @@ func (r *Recomposer) registerComposer(rt reflect.Type, fun RecomposeFunc) (*comp
 		// to the element type so it is registered now and not by the first
 		// Recompose calls.
 		ft := f.Type
+		// A named container type can contain itself (type T map[string]T);
+		// meeting one a second time ends the walk.
+		var seen []reflect.Type
 	unwrap:
 		for {
 			switch ft.Kind() {
 			case reflect.Array, reflect.Slice, reflect.Map, reflect.Ptr:
+				if ft.Name() != "" {
+					for _, st := range seen {
+						if st == ft {
+							break unwrap
+						}
+					}
+					seen = append(seen, ft)
+				}
 				ft = ft.Elem()
 			default:
 				break unwrap
